@@ -18,17 +18,17 @@ Definition fop_names (o : fop) : list string :=
   | FBr _ => ["Br"] | FBrIf _ => ["BrIf"] | FBrTable _ _ => ["BrTable"]
   | FBrOn _ _ => ["BrOnCast"; "BrOnCastFail"; "BrOnNull"; "BrOnNonNull"]
   | FReturn => ["Return"] | FRetCall _ => ["ReturnCall"; "ReturnCallIndirect"; "ReturnCallRef"]
-  | FUnreachable => ["Unreachable"] | FThrow _ => ["Throw"; "ThrowRef"; "Rethrow"]
+  | FUnreachable => ["Unreachable"] | FThrow _ => ["Throw"; "ThrowRef"; "Rethrow"; "ResumeThrow"]
   | FConst _ => ["I32Const"] | FLocalGet _ => ["LocalGet"] | FLocalSet _ => ["LocalSet"] | FLocalTee _ => ["LocalTee"]
   | FDrop => ["Drop"] | FOther _ => []
   end.
 Definition mem (n : string) (l : list string) : bool := existsb (String.eqb n) l.
 
 Theorem classification_is_the_source_lists : forall o n, In n (fop_names o) ->
-  mem n gen_block_style_ops = is_block_style o /\ mem n gen_branching_ops = is_branching o.
+  mem n gen_block_style_ops = is_block_style o /\ mem n gen_branching_ops = is_branching o /\ mem n gen_exit_ops = is_exit_op o.
 Proof.
   intros o n H. destruct o; cbn [fop_names] in H;
-    repeat (destruct H as [<-|H]; [vm_compute; split; reflexivity|]); contradiction.
+    repeat (destruct H as [<-|H]; [vm_compute; repeat split; reflexivity|]); contradiction.
 Qed.
 
 (* no operator of the two source lists hides in [FOther]: each is the name of a dedicated constructor *)
@@ -36,5 +36,6 @@ Definition representative_ops : list fop :=
   [FBlock BtEmpty; FLoop BtEmpty; FIf BtEmpty; FElse; FEnd; FBr 0; FBrIf 0; FBrTable [] 0; FBrOn 0 0%N; FReturn; FRetCall 0%N;
    FUnreachable; FThrow 0%N; FConst 0%Z; FLocalGet 0%N; FLocalSet 0%N; FLocalTee 0%N; FDrop].
 Theorem classified_names_have_constructors :
-  forallb (fun n => existsb (fun o => mem n (fop_names o)) representative_ops) (gen_block_style_ops ++ gen_branching_ops) = true.
+  forallb (fun n => existsb (fun o => mem n (fop_names o)) representative_ops)
+          (gen_block_style_ops ++ gen_branching_ops ++ gen_exit_ops) = true.
 Proof. vm_compute. reflexivity. Qed.
